@@ -36,6 +36,11 @@ LEVEL_TEXT = (
     "sufficient degree (the rules themselves: C08). Equality of assembled "
     "numbers on concrete meshes and invariance under renumbering / motion / "
     "refinement are runtime statements and are not decided.")
+LEVEL_TEXT += (
+    " Added after the seeding phase: (R1) the mapping a CellBasis stores - "
+    "and hands on to derived bases - is the one given or the mesh's own "
+    "whole-mesh mapping, for subset and whole-mesh bases on affine and "
+    "non-affine meshes.")
 LEVEL_NOTE = ("Trusted: numpy abs/broadcast_to; the quadrature rules deliver "
               "their degree (C08); determinants are those of C10.")
 EXPLANATION = "Symbolic constructor runs + degree audit of local bases."
